@@ -9,7 +9,7 @@ import (
 	"os"
 	"path/filepath"
 	"sort"
-	"strings"
+	"strconv"
 
 	"github.com/dave/dst"
 	"github.com/dave/dst/decorator"
@@ -108,9 +108,18 @@ func c20Check(c *Ctx, in c20Input) (key, what string) {
 	failIdx := -1
 	if in.FailPath != "" {
 		rr = failPathResolver{rr, in.FailPath}
+		// the package-name resolver is asked only for referenced paths without an alias in effect
 		for i, f := range in.Files {
-			if strings.Contains(f.Src, "\""+in.FailPath+"\"") {
-				failIdx = i
+			pf, perr := parser.ParseFile(token.NewFileSet(), "", f.Src, parser.ImportsOnly)
+			if perr != nil {
+				continue
+			}
+			for _, is := range pf.Imports {
+				if p, _ := strconv.Unquote(is.Path.Value); p == in.FailPath && is.Name == nil {
+					failIdx = i
+				}
+			}
+			if failIdx >= 0 {
 				break
 			}
 		}
